@@ -11,6 +11,7 @@ import numpy as np
 from . import common
 
 THEOREM_FILES = ['NumqiProps/C17.lean']
+GREP_FILES = ['NumqiProofs/DickeReduction.lean']
 LEVEL = 'proof'
 RULE = ('partial_trace: every keep-subset of every dimension list in the tier\'s range (quick: all lists of length 2..3 and a seeded sample of '
         'length 4..5, entries 2..4; thorough: all 360 lists of length 2..5), dense Gaussian-integer operators when prod(dims)<=64, sparse ones '
